@@ -2913,6 +2913,11 @@ func (db *DB) Export(ctx context.Context, dst io.Writer) (ltx.Pos, error) {
 
 	// Write page frames.
 	pageData := make([]byte, pageSize)
+	var lockPgno uint32
+	if pageSize > 0 {
+		lockPgno = ltx.LockPgno(pageSize)
+	}
+	var chksum ltx.Checksum
 	for pgno := uint32(1); pgno <= pageN; pgno++ {
 		// Read from WAL if page exists in offset map. Otherwise read from DB.
 		if walFrameOffset, ok := walFrameOffsets[pgno]; ok {
@@ -2932,6 +2937,17 @@ func (db *DB) Export(ctx context.Context, dst io.Writer) (ltx.Pos, error) {
 		if _, err := dst.Write(pageData); err != nil {
 			return pos, fmt.Errorf("write page %d: %w", pgno, err)
 		}
+
+		if pgno != lockPgno {
+			chksum ^= ltx.ChecksumPage(pgno, pageData)
+		}
+	}
+
+	// The pages must be those of the position we report. They are not if a
+	// client died inside a rollback journal transaction and left pages of it in
+	// the database file (the journal is rolled back by the next writer).
+	if postApplyChecksum := ltx.ChecksumFlag | chksum; !pos.IsZero() && postApplyChecksum != pos.PostApplyChecksum {
+		return pos, fmt.Errorf("export checksum mismatch at tx %s: %x <> %x", pos.TXID.String(), postApplyChecksum, pos.PostApplyChecksum)
 	}
 
 	return pos, nil
